@@ -3,8 +3,11 @@ check("C18", "model_checking",
       "backend sources x backend status x input kind x modules x path form, 12240 configurations) with the observables the rule prescribes "
       "(exit status, selected backend, .pn.ll per module under the out dir, rendered diagnostics, no ESC under --color=never, ASCII frames "
       "under --arrows=ascii, silent stdout, program output and status for run, backend arguments, wasm triple); each selected configuration is "
-      "replayed against the real binary with recording fake backends (real lli for run). Thorough = the full product, quick = pairwise cover + sample.",
+      "replayed against the real binary with recording fake backends (real lli for run). Thorough = the full product, quick = pairwise cover + sample. "
+      "Second part (CliDiag.tla): every sample of the diagnostic catalogue (all files of tests/samples/invalid that show an error code, plus the "
+      "lint-only samples; ~80 distinct codes) x subcommand x --color x --arrows (x --verbose, thorough): the options change the rendering only "
+      "(same codes, non-zero status, no ESC under --color=never, no non-ASCII character that is not quoted source under --arrows=ascii).",
       "Trusted: TLC, the fake backends, the reading of --silent as 'no visible output'. Absolute input paths are outside the property's "
       "quantifier (noted, not reported). The optimised build is the binary under test.",
-      "TLA+ spec (Cli.tla) + TLC enumeration of the configuration product, one implementation test per configuration on the real binary",
+      "TLA+ specs (Cli.tla, CliDiag.tla) + TLC enumeration of the configuration products, one implementation test per configuration on the real binary",
       "DESIGN.md section 5 C18")
